@@ -20,7 +20,8 @@
 \* id 0 means no schedule.
 EXTENDS Integers, Sequences, FiniteSets, TLC
 
-CONSTANTS JCs, Horizon, Ids, Windows, MaxMissed, MaxDown, MaxOps, MaxLag, MaxFaults, MaxRestarts, MaxTick, Pols, PreBoot, WithRecon, Workers
+CONSTANTS JCs, Horizon, Ids, Windows, MaxMissed, MaxDown, MaxOps, MaxLag, MaxFaults, MaxRestarts, MaxTick, Pols, PreBoot, WithRecon, Workers,
+          Relists     \* BOOLEAN: the JobConfig watch may break (undelivered events lost, the informer lists again)
 
 VARIABLES now, booted, api, cache, evq, addch, updch, heap, wq, retry, sync, jobs, jcache, jevq,
           ops, faults, restarts, uidc,
@@ -104,6 +105,21 @@ DeliverJC ==
                         THEN Append(updch, e.jc)                                                             \* schedule spec differs: flush
                    ELSE updch
     /\ UNCHANGED <<now, booted, api, heap, wq, retry, sync, jobs, jcache, jevq, ops, faults, restarts, uidc, lo, req, lastfired, reqs, ever>>
+\* the JobConfig watch breaks and the informer lists again: the cache jumps to the present; the handlers see an add for every
+\* unknown JobConfig, an update for every known one (flushed under the same rule as a delivered update) and a tombstone for
+\* every JobConfig that is gone (flushed)
+RECURSIVE AddsOf(_)
+AddsOf(S) == IF S = {} THEN <<>> ELSE LET j == Min(S) IN <<[jcid |-> j, obj |-> api[j]]>> \o AddsOf(S \ {j})
+SchedChanged(o, n) == SchedOf(o) # SchedOf(n) \/ o.lu # n.lu \/ HasSched(o) # HasSched(n)
+RECURSIVE SeqOf(_)
+SeqOf(S) == IF S = {} THEN <<>> ELSE LET j == Min(S) IN <<j>> \o SeqOf(S \ {j})
+RelistJC ==
+    /\ Relists /\ booted /\ evq # <<>>
+    /\ cache' = api /\ evq' = <<>>
+    /\ addch' = addch \o AddsOf({j \in JCs : ~cache[j].ex /\ api[j].ex})
+    /\ updch' = updch \o SeqOf({j \in JCs : cache[j].ex /\ api[j].ex /\ SchedChanged(cache[j], api[j])})
+                      \o SeqOf({j \in JCs : cache[j].ex /\ ~api[j].ex})
+    /\ UNCHANGED <<now, booted, api, heap, wq, retry, sync, jobs, jcache, jevq, ops, faults, restarts, uidc, lo, req, lastfired, reqs, ever>>
 DeliverJob ==
     /\ jevq # <<>>
     /\ jcache' = IF Head(jevq).k = "add" THEN jcache \cup {Head(jevq).x} ELSE jcache \ {Head(jevq).x}
@@ -145,8 +161,6 @@ Work ==
 \* ---- controller start
 Boot0(n) == [j \in JCs |-> IF Enabled(api[j]) THEN NextAfter(api[j], InitRef(api[j], n)) ELSE None]
 \* handlers are registered before the caches are listed: every existing JobConfig arrives as an add
-RECURSIVE AddsOf(_)
-AddsOf(S) == IF S = {} THEN <<>> ELSE LET j == Min(S) IN <<[jcid |-> j, obj |-> api[j]]>> \o AddsOf(S \ {j})
 Start == /\ cache' = api /\ evq' = <<>> /\ jcache' = jobs /\ jevq' = <<>>
          /\ addch' = AddsOf({j \in JCs : api[j].ex}) /\ updch' = <<>> /\ wq' = {} /\ retry' = {} /\ sync' = [w \in Workers |-> Idle]
          /\ heap' = Boot0(now)
@@ -185,7 +199,7 @@ Next == \/ \E j \in JCs, id \in Ids, dis \in BOOLEAN, w \in Windows, pol \in Pol
         \/ \E j \in JCs : (UserDelete(j) /\ A("UserDelete")) \/ (StatusSync(j) /\ A("StatusSync"))
         \/ \E d \in 1..MaxTick : Tick(d) /\ A("Tick")
         \/ \E x \in jobs : JobGone(x) /\ A("JobGone")
-        \/ (DeliverJC /\ A("DeliverJC")) \/ (DeliverJob /\ A("DeliverJob")) \/ (Work /\ A("Work")) \/ (Boot /\ A("Boot")) \/ (Restart /\ A("Restart"))
+        \/ (DeliverJC /\ A("DeliverJC")) \/ (RelistJC /\ A("RelistJC")) \/ (DeliverJob /\ A("DeliverJob")) \/ (Work /\ A("Work")) \/ (Boot /\ A("Boot")) \/ (Restart /\ A("Restart"))
         \/ \E k \in retry : RetryFire(k) /\ A("RetryFire")
         \/ \E k \in wq, w \in Workers : SyncBegin(k, w) /\ A("SyncBegin")
         \/ \E f \in {"ok", "error"}, w \in Workers : Step(f, w) /\ A("Step")
